@@ -111,6 +111,7 @@ impl Watcher {
 ///     Ok(())
 /// }
 /// ```
+#[cfg_attr(watchexec_verif, allow(unused_mut))]
 pub async fn worker(
 	config: Arc<Config>,
 	errors: mpsc::Sender<RuntimeError>,
@@ -121,6 +122,13 @@ pub async fn worker(
 	let mut watcher_type = Watcher::default();
 	let mut watcher = None;
 	let mut pathset = HashSet::new();
+	// verification seam: iteration order of the registered set decided by a seed, not by the OS
+	#[cfg(watchexec_verif)]
+	let mut pathset = {
+		let mut seeded = HashSet::with_hasher(crate::verif::SeededState::current());
+		seeded.extend(pathset);
+		seeded
+	};
 
 	let mut config_watch = config.watch();
 	loop {
